@@ -39,6 +39,9 @@ DiskOdd == (1 :> {F("VfA", "1", <<>>), F("VfA", "1.0", <<>>), F("VfA", "1.x", <<
 DiskEqual == (1 :> {F("VfA", "1", <<>>), F("VfB", "2.0", <<>>), F("VfC", "1.9", <<>>)})
           @@ (2 :> {F("VfA", "1.0", <<>>), F("VfB", "2", <<>>), F("VfC", "01.09", <<>>)})
           @@ (3 :> {F("VfA", "1.0", <<>>), F("VfB", "2", <<>>)})
+\* a chain Top -> Mid -> Leaf where Top does not name Leaf itself, Mid also in a private directory
+DiskChain == (1 :> {F("VfA", "1.0", <<D("VfB", "1.0")>>), F("VfB", "1.0", <<D("VfC", "1.0")>>), F("VfC", "1.0", <<>>)})
+          @@ (2 :> {F("VfB", "1.0", <<D("VfC", "1.0")>>)})
 \* simulation: everything at once
 DiskAll == (1 :> {F("VfA", "1.9", <<>>), F("VfA", "1.0", <<D("VfB", "1.0"), D("VfC", "1.0")>>)})
         @@ (2 :> {F("VfA", "1.10", <<>>), F("VfA", "1.9", <<>>), F("VfB", "1.0", <<>>), F("VfC", "1.0", <<D("VfB", "1.0")>>),
@@ -70,6 +73,7 @@ MC_DevVersionless == {"versionless_mismatch"}
 MC_DevLazyKey == {"lazy_key_reuse"}
 MC_DevMem == {"mem_conflict_dead", "closure_replace"}
 MC_DevClosure == {"closure_replace"}
+MC_DevLazyDep == {"lazy_dep_accepted"}
 MC_Skip == {<<"SKIP", "SKIP">>}
 \* witness searches: TLC's counterexample to "no step has this root cause" is replayed on the real code
 NoW_versionless == \A b \in last.broken : b[2] # "versionless_mismatch"
@@ -90,6 +94,9 @@ MC_DiskBad == {DiskBad}
 MC_DiskOdd == {DiskOdd}
 MC_DiskAll == {DiskAll}
 MC_DiskEqual == {DiskEqual}
+MC_DiskChain == {DiskChain}
+MC_EnvF == {<<1>>, <<1, 2>>}
+MC_V1 == {"1.0"}
 MC_EnvE == {<<1, 2, 3>>, <<3, 2, 1>>, <<2>>, <<>>}
 MC_VEq == {"1", "1.0", "2"}
 =============================================================================
